@@ -224,5 +224,8 @@ Proof. destruct s; simpl; congruence. Qed.
 Lemma set_flag_same s : s <> SNull -> set_flag (is_optional s) s = s.
 Proof. destruct s; simpl; congruence. Qed.
 
+Lemma set_flag_same' s : set_flag (is_optional s) s = s.
+Proof. destruct s; reflexivity. Qed.
+
 Lemma wf_set_flag f s : wf (set_flag f s) = wf s.
 Proof. destruct s; reflexivity. Qed.
